@@ -30,6 +30,10 @@ def shipped_dated_names():
     return [n for n in shipped_names() if isinstance(getattr(c, n).ref_epoch, datetime.date)]
 
 
+class CallerDate(datetime.date):
+    """A caller's own subclass of datetime.date (the way calendar / epoch helper packages hold dates)."""
+
+
 def make_trans(spec):
     c = repo.mod("geodepy.constants")
     if "name" in spec:
@@ -42,6 +46,8 @@ def make_trans(spec):
         sd = c.TransformationSD(**kw)
     ep = spec.get("epoch")
     ref = datetime.date(*ep) if ep else 0
+    if ep and spec.get("epoch_cls") == "subclass":
+        ref = CallerDate(*ep)          # the reference epoch held in a date subclass of the caller's own (any date is a date)
     rates = spec.get("rates") or [0.0] * 7
     p = spec["p"]
     # representation of the parameters: numpy float64 scalars (a set built from an array) or Python ints (whole values)
